@@ -27,7 +27,7 @@ class _BldProp(Prop):
 
 class C09(_BldProp):
     id = "C09"
-    required = ["C09.length_field", "C09.overflow_fails", "C09.oversized_value_fails"]
+    required = ["C09.length_field", "C09.overflow_fails", "C09.oversized_value_fails", "C09.oversized_call_fails", "C09.overflow_fails_direct", "C09.build_only_failure"]
     rule = ("random builder programs, set_length inserted at every position of programs with >= 1 write, totals steered to 65534..65537 and "
             "to the writer guard; non-trivial = distinct programs with >= 1 write and a set_length not in first position, or payload total within 1 of 65535")
 
@@ -153,7 +153,7 @@ class C10(_BldProp):
 
 class C07(_BldProp):
     id = "C07"
-    required = ["C07.build_is_encoding", "C07.parses_back", "C07.tlvs_back", "C07.type_codes"]
+    required = ["C07.build_is_encoding", "C07.parses_back", "C07.tlvs_back", "C07.type_codes", "C07.roundtrip", "C07.named_type_codes_on_bytes"]
     rule = ("programs of the C07 shape: valid control, any address value, TLV lists within 65535 (incl. totals of exactly 65535), each followed "
             "by parsing the built bytes; plus the code table; non-trivial = distinct programs with >= 2 TLVs of different types or a value > 255 bytes")
 
@@ -302,7 +302,7 @@ class C13(Prop):
 
 class C20(Prop):
     id = "C20"
-    required = ["C20.write_appends_encoding", "C20.to_bytes", "C20.int_big_endian", "C20.tlv_pair_same", "C20.oversize_refused", "C20.success_condition"]
+    required = ["C20.write_appends_encoding", "C20.to_bytes", "C20.int_big_endian", "C20.tlv_pair_same", "C20.oversize_refused", "C20.success_condition", "C20.int_signed", "C20.width_table", "C20.partial_write_exact"]
     rule = ("every integer width at min/max/random, every address kind, TLVs with lengths {0,1,255,256,65535,65536}, sections and slices, "
             "written into writers pre-filled with {0,1,16,65535,65549..65553} bytes; non-trivial = distinct (payload kind, size class, prefill class)")
 
